@@ -32,6 +32,11 @@ var nondetSources = map[string]bool{
 	"os.Getpid": true, "os.Hostname": true, "os.Getenv": true, "os.Environ": true, "os.LookupEnv": true, "os.Getppid": true,
 	"runtime.NumGoroutine": true, "runtime.GOMAXPROCS": true, "runtime.NumCPU": true,
 	"os.Getwd": false,
+	// file metadata (timestamps, inode identity) is not part of the declared input
+	"os.Stat": true, "os.Lstat": true, "(*os.File).Stat": true, "invoke (io/fs.FileInfo).ModTime": true,
+	"os.SameFile": true, "os.Chtimes": true, "invoke (io/fs.DirEntry).Info": true,
+	// library-level concurrency: work handed to other goroutines (the allocator is shared by all files of a run)
+	"(*golang.org/x/sync/errgroup.Group).Go": true, "(*golang.org/x/sync/errgroup.Group).TryGo": true, "(*sync.WaitGroup).Go": true,
 }
 
 func isFsMutator(callee string) bool {
